@@ -408,6 +408,9 @@ pub fn seq_job(
                 if !matches!(ops[ops.len() - 1], Op::Reset) {
                     out.stats.seen_output(&last);
                     check(&ops, &last, out);
+                    if ops.len() >= depth.min(4) && out.stats.samples.len() < 3 {
+                        out.stats.samples.push(format!("{} ops=[{}] -> {}", cfg.descr(), ops_text(&ops), out2s(&last)));
+                    }
                 }
             }
             Err(step) => {
